@@ -1,3 +1,4 @@
+import CV.Driver.Loop
 import CV.Driver.Ans
 import CV.Driver.Range
 import CV.Driver.Chain
@@ -26,17 +27,4 @@ def dispatch (line : String) : String :=
     else "bad-op"
   | _ => "bad-op"
 
-partial def loop (hin : IO.FS.Stream) (hout : IO.FS.Stream) : IO Unit := do
-  let line ← hin.getLine
-  if line.isEmpty then return ()
-  let l := line.trimAscii.toString
-  if l.isEmpty || l.startsWith "#" then
-    hout.putStrLn l
-  else
-    hout.putStrLn (dispatch l)
-  loop hin hout
-
-def main : IO Unit := do
-  let hin ← IO.getStdin
-  let hout ← IO.getStdout
-  loop hin hout
+def main : IO Unit := CV.Driver.runLoop dispatch
